@@ -67,6 +67,21 @@ TraceShowBias ==
                   (defined(i) /\ o.values[r][i][2] > 0) =>
                      /\ Close(o.lower[r][i], Rate6(o.values[r][i]), 2)
                      /\ Close(o.upper[r][i], Rate6(o.values[r][i]), 2), IF dm # "" THEN dm ELSE du)
+        (* built-in samplers on LARGE frames (>= 100 rows of either label, default 'dynamic' sampling): *)
+        (* a bootstrap interval of a class-conditional rate over n rows is, beyond any reasonable     *)
+        (* doubt (8 standard deviations), no wider than 4/sqrt(n) and no further than that from the   *)
+        (* reported rate                                                                              *)
+        /\ rep("C18.interval_is_about_the_reported_quantity_statistically",
+               ~bshape \/ ~labelsOK \/ e.boot # "builtin" \/ ~("big" \in DOMAIN e) \/ e.normalize # "none" \/
+               e.metric \notin {"fnr", "tpr", "fpr", "tnr"} \/
+               \A r \in 1..nrow : \A i \in 1..nt :
+                  LET m == CMOf(fr, RowsOf(fr, nc, lab(r)), e.pos_label, e.sc, e.ec, e.t2[i])
+                      n == IF e.metric \in {"fnr", "tpr"} THEN bP(m) ELSE bN(m)
+                      b == Quot6(4000, Sqrt6(n) \div 1000)
+                      p == Rate6(o.values[r][i])
+                  IN (n >= 30 /\ n <= 400 /\ o.values[r][i][2] > 0) =>
+                       /\ o.upper[r][i] - o.lower[r][i] <= b
+                       /\ o.lower[r][i] - b <= p /\ p <= o.upper[r][i] + b, "")
 
 Next == TraceShowBias
 Spec == Init /\ [][Next]_vars
